@@ -35,6 +35,10 @@ theorem gen_sector_circ_ok :
 
 theorem gen_circ_table : circTable = CircTable.reference := by decide
 
+/-- the membership tests used by the generic samplers: `GridRegion._trueContainsPoint` is the point-set test,
+    `PolygonalRegion._trueContainsPoint` compares z, `PolylineRegion.containsPoint` has a tolerance -/
+theorem gen_membership : membership = MembershipTable.reference := by decide
+
 /-! ## membership of the closed-form samplers -/
 
 /-- `RectangularRegion.uniformPointInner`: for every heading and all draws `rx ∈ [-hw, hw]`, `ry ∈ [-hl, hl]`
@@ -178,6 +182,40 @@ theorem poly_candidate_mem (minx miny maxx maxy z ux uy : Rat) (hx : minx ≤ ma
 theorem z_zero_breaks_membership :
     ¬ inDisc ⟨0, 0, 5⟩ 1 (discSample .zero ⟨0, 0, 5⟩ 0 1 0) := by
   simp [inDisc, discSample, zOf]
+
+/-! ## the membership tests the generic samplers apply to these samples -/
+
+/-- `PolygonalRegion._trueContainsPoint` (regenerated): only points at the polygon's own height are accepted, so
+    a generic intersection / difference / union involving a planar region tests all three coordinates -/
+theorem polygon_true_membership_z (z : Rat) (fp : V3 → Bool) (p : V3)
+    (h : polygonContains membership.polygon z fp p = true) : p.z = z ∧ fp p = true := by
+  rw [gen_membership] at h
+  simpa [polygonContains, MembershipTable.reference] using h
+
+/-- … and every candidate the polygon sampler returns passes it (z clause), provided it is in the footprint -/
+theorem polygon_candidate_recognised (minx miny maxx maxy z ux uy : Rat) (fp : V3 → Bool)
+    (hfp : fp (polyCandidate zTable.polygon minx miny maxx maxy z ux uy) = true) :
+    polygonContains membership.polygon z fp (polyCandidate zTable.polygon minx miny maxx maxy z ux uy) = true := by
+  rw [gen_membership, gen_z_table] at *
+  simpa [polygonContains, MembershipTable.reference, polyCandidate, ZTable.reference, zOf] using hfp
+
+/-- the z-blind test accepts a point 5 above the polygon -/
+theorem footprint_membership_ignores_z :
+    polygonContains .footprintOnly 0 (fun _ => true) ⟨0, 0, 5⟩ = true ∧
+    polygonContains membership.polygon 0 (fun _ => true) ⟨0, 0, 5⟩ = false := by decide +kernel
+
+/-- `PolylineRegion.containsPoint` (regenerated: distance ≤ tolerance at z = 0): a sample whose rounding error
+    (distance from the exact polyline) is within the tolerance is recognised by its own region — the hypothesis
+    `contains = atoms` of the union / intersection theorems for polylines -/
+theorem polyline_recognises_own_samples (a b : V3) (t tol dist : Rat) (htol : dist ≤ tol) :
+    polylineContains membership.polyline tol dist (polylineSample zTable.polyline a b t).z = true := by
+  rw [gen_membership, gen_z_table]
+  simp [polylineContains, MembershipTable.reference, polylineSample, ZTable.reference, zOf, htol]
+
+/-- the exact test (`lineString.intersects`, before the repair) rejects a sample that is off by any rounding error -/
+theorem polyline_exact_test_rejects_rounding :
+    polylineContains .exactIntersects (1 / 1000000) (1 / 1000000000) 0 = false ∧
+    polylineContains membership.polyline (1 / 1000000) (1 / 1000000000) 0 = true := by decide +kernel
 
 /-! ## radius drawn with `random.triangular(0, R, R)` gives an area-uniform disc -/
 
